@@ -893,3 +893,214 @@ Proof.
     - discriminate. }
   destruct v; try (intros [= <-]; reflexivity); exact G.
 Qed.
+
+(* ---------- (1) the ifExists rules, one by one (repaired model, no faults) ---------- *)
+Definition cfg (w : bytes) (d f : option val) : val := VTup (Some (VStr w)) d f.
+
+Lemma tuple_stat w wd d f dry p s : fault s = None -> word_of w = Some wd ->
+  (match wd with WMerge => isSome f | _ => false end) = false ->
+  out off REntry dry (cfg w d f) p s =
+    match stat (fs s) p with
+    | SNotDir => Err (tk s)
+    | SNoEnt => match wd with WRemove => out_existing off dry wd d f p (tk s) | _ => out_files off dry d f p (tk s) end
+    | SNode _ => out_existing off dry wd d f p (tk s)
+    end.
+Proof.
+  intros F Hw Hm. rewrite out_REntry. unfold cfg, out_tuple. rewrite Hw, Hm, (op_stat_nf _ _ F). reflexivity.
+Qed.
+
+Lemma rule_ignore d f dry p s n : fault s = None -> stat (fs s) p = SNode n ->
+  out off REntry dry (cfg w_ignore d f) p s = Ok (tk s).
+Proof. intros F S. rewrite (tuple_stat _ WIgnore) by auto. rewrite S. reflexivity. Qed.
+
+Lemma rule_fail d f dry p s n : fault s = None -> stat (fs s) p = SNode n ->
+  out off REntry dry (cfg w_fail d f) p s = Err (tk s).
+Proof. intros F S. rewrite (tuple_stat _ WFail) by auto. rewrite S. reflexivity. Qed.
+
+Lemma rule_remove p s n s' : fault s = None -> stat (fs s) p = SNode n ->
+  out off REntry false (cfg w_remove None None) p s = Ok s' ->
+  fs s' = remove_subtree p (fs s) /\ forall x, x <> [] -> underb p x = true -> lookup x (fs s') = None.
+Proof.
+  intros F S. rewrite (tuple_stat _ WRemove) by auto. rewrite S. unfold out_existing. cbn [isSome orb].
+  unfold op_removeall, tick. rewrite tk_fault, F. cbn [fs tk tick snd]. rewrite S. intros [= <-]. cbn [with_fs fs].
+  split; auto. intros x N U. rewrite lookup_remove, U; auto.
+Qed.
+
+Lemma rule_remove_absent p s : fault s = None -> stat (fs s) p = SNoEnt ->
+  exists s', out off REntry false (cfg w_remove None None) p s = Ok s' /\ fs s' = fs s.
+Proof.
+  intros F S. rewrite (tuple_stat _ WRemove) by auto. rewrite S. unfold out_existing. cbn [isSome orb].
+  unfold op_removeall, tick. rewrite tk_fault, F. cbn [fs tk tick snd]. rewrite S. eexists; split; reflexivity.
+Qed.
+
+Lemma rule_replace d f p s n : fault s = None -> stat (fs s) p = SNode n -> eqb (isSome d) (isSome f) = false ->
+  exists s2, fault s2 = None /\ fs s2 = remove_subtree p (fs s) /\
+    out off REntry false (cfg w_replace d f) p s = out_files off false d f p s2.
+Proof.
+  intros F S X. rewrite (tuple_stat _ WReplace) by auto. rewrite S. unfold out_existing. rewrite X.
+  destruct (rm_ok p (tk s)) as (s2 & R & F2 & M2); auto. rewrite tk_fs, S; discriminate.
+  rewrite tk_fs, S in M2. exists s2. rewrite R. auto.
+Qed.
+
+Lemma rule_merge dv p s n : fault s = None -> stat (fs s) p = SNode n ->
+  out off REntry false (cfg w_merge (Some dv) None) p s = out off RDir false dv p (tk s).
+Proof. intros F S. rewrite (tuple_stat _ WMerge) by auto. rewrite S. unfold out_existing. rewrite out_RDir. reflexivity. Qed.
+
+Lemma rule_absent w wd d f p s : fault s = None -> stat (fs s) p = SNoEnt -> word_of w = Some wd -> wd <> WRemove ->
+  (match wd with WMerge => isSome f | _ => false end) = false ->
+  out off REntry false (cfg w d f) p s = out off REntry false (VTup None d f) p (tk s).
+Proof.
+  intros F S Hw N Hm. rewrite (tuple_stat _ wd) by auto. rewrite S. rewrite (out_REntry _ _ (VTup None d f)). unfold out_tuple.
+  destruct wd; congruence.
+Qed.
+
+Lemma rule_file b c par s s' : fault s = None ->
+  out off RFile false (VStr b) (c :: par) s = Ok s' -> lookup (c :: par) (fs s') = Some (File b).
+Proof.
+  intros F. rewrite out_RFile. unfold out_file. cbn [q_kind_unchecked off]. rewrite (op_stat_nf _ _ F).
+  assert (G : forall s1, fault s1 = None -> write_file off (c :: par) b s1 = Ok s' -> lookup (c :: par) (fs s') = Some (File b)).
+  { intros s1 F1. unfold write_file, tick, with_fs. rewrite F1. cbn [fs nops fault fired].
+    destruct (stat (fs s1) par) as [[?|]| |]; try discriminate.
+    destruct (lookup (c :: par) (fs s1)) as [[?|]|]; try discriminate; rewrite ?F1; cbn; intros [= <-]; cbn [fs];
+      apply lookup_set_same. }
+  destruct (stat (fs s) (c :: par)) as [[?|]| |]; cbn [bind]; try discriminate; apply G; auto.
+Qed.
+
+(* ---------- statements at the level of the whole command ---------- *)
+Inductive rclass := ROk | RErr | RPanic.
+Definition rcls (r : res) : rclass := match r with Ok _ => ROk | Err _ => RErr | Panic _ => RPanic end.
+(* same observable outcome: same class, same file system *)
+Definition obs_eq (r1 r2 : res) : Prop :=
+  rcls r1 = rcls r2 /\ forall x, lookup x (fs (res_st r1)) = lookup x (fs (res_st r2)).
+
+Theorem atomic_guarded q v c par m s' : wfv v -> wf m ->
+  obs_eq (out_dir_mode q v (c :: par) (init m None)) (out_dir_mode off v (c :: par) (init m None)) ->
+  out_dir_mode q v (c :: par) (init m None) = Err s' -> forall x, lookup x (fs s') = lookup x m.
+Proof.
+  intros Wv W [C L] E x. rewrite E in *. cbn [rcls res_st] in *.
+  destruct (out_dir_mode off v (c :: par) (init m None)) as [?|s2|?] eqn:O; try discriminate.
+  rewrite L. cbn [res_st]. rewrite (atomic_off _ _ _ _ _ Wv W O). reflexivity.
+Qed.
+
+Theorem frame_dir_mode q v p m k x : q_name_escapes q = false -> underb p x = false ->
+  lookup x (fs (res_st (out_dir_mode q v p (init m k)))) = lookup x m.
+Proof.
+  intros E U. unfold out_dir_mode.
+  assert (G : lookup x (fs (res_st (bind (out q RDir true v p (init m k)) (fun s1 => out q RDir false v p s1)))) = lookup x m).
+  { pose proof (frame_out q true p v RDir p (init m k) E (underb_refl _) x U) as H1.
+    destruct (out q RDir true v p (init m k)) as [s1| |]; cbn [bind res_st] in *; auto.
+    rewrite (frame_out q false p v RDir p s1 E (underb_refl _) x U). exact H1. }
+  destruct v; try reflexivity; exact G.
+Qed.
+
+Theorem frame_file_mode q v c par m k x : x <> c :: par ->
+  lookup x (fs (res_st (out_file_mode q v (c :: par) (init m k)))) = lookup x m.
+Proof.
+  intro N. unfold out_file_mode. rewrite out_RFile.
+  apply (inv_out_file q false (fun s s' => lookup x (fs s') = lookup x (fs s)) (fun p => p = c :: par)); auto; try congruence.
+  intros _ p0 b s0 ->.
+  destruct (write_cases q (c :: par) b s0) as [_ [-> | (c' & par' & _ & _ & _ & [-> | ->])]]; auto;
+    rewrite ?lookup_set_other; auto.
+Qed.
+
+Theorem file_mode_content b c par m s' :
+  out_file_mode off (VStr b) (c :: par) (init m None) = Ok s' -> lookup (c :: par) (fs s') = Some (File b).
+Proof. apply rule_file. reflexivity. Qed.
+
+(* decidable well-formedness of concrete file systems *)
+Definition wfb (m : fsmap) : bool :=
+  forallb (fun e => match fst e with [] => true | _ :: par => match lookup par m with Some Dir => true | _ => false end end) m.
+Lemma assoc_in x m n : assoc x m = Some n -> In (x, n) m.
+Proof.
+  induction m as [|[qq n'] m IH]; simpl; [discriminate|].
+  destruct (path_eqb x qq) eqn:E. apply path_eqb_spec in E; subst. intros [= ->]. auto. auto.
+Qed.
+Lemma wfb_wf m : wfb m = true -> wf m.
+Proof.
+  intros H c p N. unfold wfb in H. rewrite forallb_forall in H.
+  destruct (lookup (c :: p) m) eqn:L; [|congruence]. apply assoc_in in L. apply H in L. cbn [fst] in L.
+  destruct (lookup p m) as [[?|]|]; congruence.
+Qed.
+
+(* ---------- witnesses: each quirk, alone, violates the property ---------- *)
+Definition only_dry_mkdir := Build_quirks true false false false false false false false.
+Definition only_skip_unsupported := Build_quirks false true false false false false false false.
+Definition only_name_escapes := Build_quirks false false true false false false false false.
+Definition only_replace_unvalidated := Build_quirks false false false true false false false false.
+Definition only_multi_panic := Build_quirks false false false false true false false false.
+Definition only_stat_err_ignored := Build_quirks false false false false false true false false.
+Definition only_close_err_ignored := Build_quirks false false false false false false true false.
+Definition only_kind_unchecked := Build_quirks false false false false false false false true.
+
+Definition nW : name := [119]. Definition nO : name := [111].
+Definition PATH : path := [nO; nW].                          (* /w/o *)
+Definition m_fresh : fsmap := [([nW], Dir)].
+Definition kA := KStr [97]. Definition kB := KStr [98]. Definition kT := KStr [116].
+
+Ltac wfv_tac := cbn [wfv map fst snd cfg]; repeat split; repeat (constructor; simpl); try (intuition discriminate).
+
+Lemma dry_mkdir_refuted : exists v s', wfv v /\ wf m_fresh /\
+  out_dir_mode only_dry_mkdir v PATH (init m_fresh None) = Err s' /\ lookup PATH (fs s') <> lookup PATH m_fresh.
+Proof.
+  exists (VDict [(kB, VDict []); (KStr [122], VSetOther)]). eexists. split; [|split; [apply wfb_wf; reflexivity|split; [vm_compute; reflexivity|vm_compute; discriminate]]].
+  wfv_tac.
+Qed.
+
+Lemma skip_unsupported_refuted : exists v s' s'',
+  out_dir_mode only_skip_unsupported v PATH (init m_fresh None) = Ok s' /\
+  out_dir_mode quirks_off v PATH (init m_fresh None) = Err s''.
+Proof. exists (VDict [(KStr [110], VOther)]). do 2 eexists. split; vm_compute; reflexivity. Qed.
+
+Lemma name_escapes_refuted : exists v s' x,
+  out_dir_mode only_name_escapes v PATH (init m_fresh None) = Ok s' /\
+  underb PATH x = false /\ lookup x (fs s') <> lookup x m_fresh.
+Proof.
+  exists (VDict [(KStr [46;46;47;101], VStr [120])]). eexists. exists [[101]; nW].
+  split; [vm_compute; reflexivity|split; [reflexivity|vm_compute; discriminate]].
+Qed.
+
+Definition m_t : fsmap := [([nW], Dir); ([nO; nW], Dir); ([[116]; nO; nW], Dir); ([[107]; [116]; nO; nW], File [65])].
+Lemma replace_unvalidated_refuted : exists v s', wfv v /\ wf m_t /\
+  out_dir_mode only_replace_unvalidated v PATH (init m_t None) = Err s' /\
+  lookup [[107]; [116]; nO; nW] (fs s') <> lookup [[107]; [116]; nO; nW] m_t.
+Proof.
+  exists (VDict [(kT, cfg w_replace (Some (VDict [(kA, VSetOther)])) None)]). eexists.
+  split; [|split; [apply wfb_wf; reflexivity|split; [vm_compute; reflexivity|vm_compute; discriminate]]].
+  wfv_tac.
+Qed.
+
+Lemma multi_panic_refuted : exists v s', out_dir_mode only_multi_panic v PATH (init m_fresh None) = Panic s'.
+Proof. exists (VDict [(KOther, VMulti)]). eexists. vm_compute. reflexivity. Qed.
+
+Lemma stat_err_ignored_refuted : exists v k s',
+  out_dir_mode only_stat_err_ignored v PATH (init m_fresh (Some k)) = Ok s' /\ fired s' = true.
+Proof. exists (VDict []), 0%nat. eexists. split; vm_compute; reflexivity. Qed.
+
+Lemma close_err_ignored_refuted : exists v k s',
+  out_dir_mode only_close_err_ignored v PATH (init m_fresh (Some k)) = Ok s' /\ fired s' = true.
+Proof. exists (VDict [(kA, VStr [120])]), 8%nat. eexists. split; vm_compute; reflexivity. Qed.
+
+Definition m_d : fsmap := [([nW], Dir); ([nO; nW], Dir); ([[100]; nO; nW], File [65])].
+Lemma kind_unchecked_refuted : exists v s', wfv v /\ wf m_d /\
+  out_dir_mode only_kind_unchecked v PATH (init m_d None) = Err s' /\
+  lookup [[97]; nO; nW] (fs s') <> lookup [[97]; nO; nW] m_d.
+Proof.
+  exists (VDict [(kA, VStr [49]); (KStr [100], VDict [(KStr [120], VStr [50])])]). eexists.
+  split; [|split; [apply wfb_wf; reflexivity|split; [vm_compute; reflexivity|vm_compute; discriminate]]].
+  wfv_tac.
+Qed.
+
+(* non-vacuity: on a non-trivial description and prior state, today's code (all quirks on) agrees with the repaired model,
+   succeeds, keeps the ignored file, replaces the replaced one and writes the new one *)
+Definition m_nv : fsmap := [([nW], Dir); ([nO; nW], Dir); ([[116]; nO; nW], File [65]); ([[117]; nO; nW], File [66])].
+Definition v_nv : val := VDict [(kA, VStr [120]); (kT, cfg w_ignore None (Some (VStr [121]))); (KStr [117], cfg w_replace None (Some (VStr [122])));
+                               (KStr [100], VDict [(KStr [101], VEmpty)])].
+Lemma nonvacuous : exists s' s'', wf m_nv /\
+  out_dir_mode quirks_on v_nv PATH (init m_nv None) = Ok s' /\
+  out_dir_mode quirks_off v_nv PATH (init m_nv None) = Ok s'' /\
+  (forallb (fun x => match lookup x (fs s'), lookup x (fs s'') with
+                     | Some (File a), Some (File b) => zs_eqb a b | Some Dir, Some Dir => true | None, None => true | _, _ => false end)
+           (map fst (fs s') ++ map fst (fs s'')) = true) /\
+  lookup [[97]; nO; nW] (fs s') = Some (File [120]) /\ lookup [[116]; nO; nW] (fs s') = Some (File [65]) /\
+  lookup [[117]; nO; nW] (fs s') = Some (File [122]) /\ lookup [[101]; [100]; nO; nW] (fs s') = Some (File []).
+Proof. do 2 eexists. split; [apply wfb_wf; reflexivity|]. repeat split; vm_compute; reflexivity. Qed.
